@@ -21,7 +21,7 @@ TESTS = {
                                    why='replay search: source of concrete failing inputs when the deductive check of the client table is undecided (e.g. a changed data representation) or fails'),
     'client_wire_bounded': dict(file='client_wire_bounded', fn='client_wire_three_calls',
                                 functions=['tarpc/src/client.rs::RequestDispatch, Channel::call, ResponseGuard (through the public API, hand-written gated transport)'],
-                                bound='up to 3 calls x 4 fates (answered, abandoned queued, abandoned after transmission, kept) x all fate orders x a dispatch poll or not after each step x capacity 1|2 x readiness gated|not x handles dropped|kept (200832 scenarios); oracles on the wire log (C01 routing, C03 cancel rules, C07 deadline forwarded, C10 close rules, C11 in-flight maximum, C14 sink contract incl. never idle with unflushed items, C18 per-call trace contexts on requests and cancellations)',
+                                bound='up to 3 calls x 4 fates (answered, abandoned queued, abandoned after transmission, kept) x all fate orders x a dispatch poll or not after each step x capacity 1|2 x readiness gated|not x handles dropped|kept x flush immediate|at the second attempt (401664 scenarios); oracles on the wire log (C01 routing, C03 cancel rules, C07 deadline forwarded, C10 close rules, C11 in-flight maximum, C14 sink contract incl. never idle with unflushed items, C18 per-call trace contexts on requests and cancellations)',
                                 why='replay search: source of concrete failing inputs when the deductive check is undecided (code rewritten into a shape the contracts cannot be checked against) or fails'),
     'server_wire_bounded': dict(file='server_wire_bounded', fn='server_wire_scripts',
                                 functions=['tarpc/src/server.rs::BaseChannel, Requests, InFlightRequest::execute; tarpc/src/server/limits/requests_per_channel.rs::MaxRequests (through the public API, hand-written buffering transport)'],
@@ -33,7 +33,7 @@ TESTS = {
                                    why='replay search: source of concrete failing inputs when the deductive check of unit server/trace_ctx is undecided (e.g. a new helper function without a contract) or fails'),
     'deadlines_bounded': dict(file='deadlines_bounded', fn='deadlines_enforced_and_never_early',
                               functions=['tarpc/src/client.rs + client/in_flight_requests.rs (deadline timers, through the public API)', 'tarpc/src/server.rs + server/in_flight_requests.rs (deadline timers, through the public API)'],
-                              bound='paused tokio clock; deadlines {1 s, 10 s, 60 s, 1 h} x peer reply at {never, 0.5 D, 1.1 D} (client) and handler finishing at {never, 0.5 D, 2 D} x channel with/without the request-limit layer (server), next to a second request with deadline 10 D (36 scenarios); probes at 0.8 D (nothing timed out early) and 1.2 D + 5 ms (timed out by then); plus a queued-before-transmission scenario (C05/C11) and a call abandoned as its reply arrives whose deadline then passes (C11/C16)',
+                              bound='paused tokio clock; deadlines {1 s, 10 s, 60 s, 1 h} x peer reply at {never, 0.5 D, 1.1 D} (client) and handler finishing at {never, 0.5 D, 2 D} x channel with/without the request-limit layer (server), next to a second request with deadline 10 D (36 scenarios); probes at 0.8 D (nothing timed out early) and 1.2 D + 5 ms (timed out by then); plus a queued-before-transmission scenario (C05/C11) a call abandoned as its reply arrives whose deadline then passes (C11/C16), and a handler that finishes after its deadline before the channel is polled again (C06)',
                               why='replay search: source of concrete failing inputs when the deductive checks of the deadline clauses are undecided or fail'),
     'client_faults_bounded': dict(file='client_faults_bounded', fn='client_fault_injection',
                                   functions=['tarpc/src/client.rs::RequestDispatch (through the public API, hand-written failing transport)'],
@@ -55,6 +55,14 @@ TESTS = {
                                    functions=['tarpc/src/server.rs::BaseChannel, Requests, InFlightRequest::execute; requests_per_channel.rs::MaxRequests (through the public API; tasks polled only when their waker fired)'],
                                    bound='every event sequence <= 5 (thorough: 6) over {Req 7, Req 8, Cancel 7, handler #0|#1 finishes, sink becomes writable, inbound closes} x request limit none|1 x sink writable from the start|not; each scenario run wake-driven and with unsolicited polls, outcomes (wire, handler states, stream state) must coincide',
                                    why='replay search for the liveness side of C02 on the server channel'),
+    'codec_grid_bounded': dict(file='codec_grid_bounded', fn='messages_round_trip_under_both_codecs',
+                               functions=['tarpc/src/serde_transport.rs::Transport; tarpc/src/lib.rs message types; tarpc/src/trace.rs, context.rs, util/serde.rs codecs (through the public API, over tokio::io::duplex)'],
+                               bound='boundary-value grid: 64 requests (ids {0,1,2^32,u64::MAX} x trace ids {0,1,2^64+5,u128::MAX} x span ids x sampling; remaining time passed|1.25 s|10 s|1 h|400 d; bodies empty|1 B|10 kB) + cancels + 24 responses (Ok, the 18 portable error kinds, 2 others) x JSON|bincode x byte-stream buffer 7|64|4096 bytes (660 messages); oracles: exact round trip in order, portable kinds exact / others degrade to Other, end-of-stream after the writer is dropped, deadline never earlier and later by at most the transit, passed deadline arrives as now',
+                               why='replay search: source of concrete failing inputs for the wire format under the real codecs and real fragmentation (the deductive checks cover the tarpc-owned tables, shapes and forwarding; the codecs are assumed)'),
+    'server_abandon_bounded': dict(file='server_abandon_bounded', fn='abandoned_requests_are_reclaimed',
+                                   functions=['tarpc/src/server.rs::InFlightRequest (drop, execute), ResponseGuard::drop, BaseChannel::poll_next (internal cancellation queue), in_flight_requests (through the public API)'],
+                                   bound='a yielded request abandoned at 5 points of its life (never run; execute created but never polled; while the handler runs; after the handler finished while the response waits for room in a one-slot response buffer; run to completion) x with/without the request-limit layer, next to a request that completes (10 scenarios); oracles: in_flight_requests() back to 0 without the clock moving, the stream ends once inbound closes, no response for a request whose handler never finished',
+                                   why='replay search: source of concrete failing inputs for the server clauses of C11 (a handler that was never run or was dropped midway)'),
     'channels_bounded': dict(file='channels_bounded', fn='channels_per_key_scripts',
                              functions=['tarpc/src/server/limits/channels_per_key.rs::MaxChannelsPerKey, TrackedChannel, Tracker (through the public API: Incoming::max_channels_per_key over an mpsc listener of BaseChannels)'],
                              bound='every script of <= 9 events over {arrive key 0, arrive key 1, drop the k-th oldest live yielded channel (k<3), poll once} x n in {1,2} (118516 scripts); oracle = the property (admitted iff fewer than n yielded channels with the key are alive when the filter reaches the arrival)',
